@@ -210,7 +210,7 @@ def group(name, fn, functions, props):
 
 group("slot_size", vc_slot_size, [(TU, "_to_slot_size")], ["C03", "C05", "C01", "C10"])
 group("stride_arithmetic", vc_strides, [(ARR, q) for q in ("get_strides", "get_c_strides", "get_f_strides", "get_offset", "bound_check", "mk_order")],
-      ["C03", "C05", "C10", "C11", "C06", "C01"])
+      ["C03", "C05", "C10", "C11", "C06", "C01", "C07"])
 
 
 def targets(prop):
@@ -1149,7 +1149,7 @@ def vc_struct_layout_loops():
     return obs
 
 
-group("struct_layout_loops", vc_struct_layout_loops, [(STRUCT, "MetaStruct.__new__")], ["C05", "C03", "C02"])
+group("struct_layout_loops", vc_struct_layout_loops, [(STRUCT, "MetaStruct.__new__")], ["C05", "C03", "C02", "C07"])
 
 
 # ------------------------------------------------------------------------------------------------ group 8: Struct objects (<= 3 fields)
